@@ -4,7 +4,7 @@
 (* seed denotes, the schemas that exercise every draw site, and the sites  *)
 (* whose outcome can depend on the interpreter's hash randomisation.       *)
 (***************************************************************************)
-EXTENDS D42SchemaUniverse, D42Findings
+EXTENDS D42SchemaUniverse, D42Combine
 
 Sels == <<"lo", "hi", "lo1", "hi1", "hi", "lo", "hi1", "lo1">>
 \* the tape a run sees: the stream of seed k read from position 0
@@ -14,6 +14,19 @@ TapeOfSeed(k) == [n \in 1..8 |-> Sels[((n + 3 * k) % 8) + 1]]
 RxNeg == VPat(RRep(RClass(TRUE, <<CRange(97, 99)>>), 2, 2, FALSE))             \* [^a-c]{2}
 RxNotLit == VPat(RSeq(<<RNotLit(97), RDigit>>))                                \* [^a]\d
 RxMix == VPat(RSeq(<<RGroup("cap", RAlt(<<RSeq(<<RLit(97), RAny>>), RWord>>)), RRep(RClass(FALSE, <<CRange(97, 99), CLit(95)>>), 1, 3, FALSE)>>))
+RxOpen33 == VPat(RRep(RClass(FALSE, <<CRange(97, 99)>>), 65, INF, FALSE))        \* [a-c]{65,}
+RxPlus == VPat(RRep(RLit(97), 1, INF, FALSE))                                    \* a+
+SOpen33 == [BareStr EXCEPT !.pattern = Some(RxOpen33)]
+SPlus == [BareStr EXCEPT !.pattern = Some(RxPlus)]
+KC == VStr(<<99>>)
+\* schemas that only exist as the result of an operator: [x |-> "add", a, b] is a + b
+SumExpr(a, b) == [x |-> "add", a |-> a, b |-> b]
+SeedSums == { SumExpr(DictOf(<<DKey(KA, SInt05, FALSE), DKey(KB, SStrAlpha, FALSE)>>), DictOf(<<DKey(KC, SInt05, FALSE)>>)),
+              SumExpr(DictOf(<<DKey(KB, SStrAlpha, FALSE), DKey(VEllipsis, VEllipsis, FALSE)>>),
+                      DictOf(<<DKey(KA, SInt05, FALSE), DKey(KC, SFloat01, FALSE)>>)) }
+IsSum(el) == "x" \in DOMAIN el
+SchemaOf(el) == IF IsSum(el) THEN Add(el.a, el.b).s ELSE el
+
 SeedSchemas ==
   { BareBool, BareInt, SInt05, BareFloat, SFloat01,
     [BareFloat EXCEPT !.min = Some(VFloat(25)), !.max = Some(VFloat(75)), !.precision = Some(VInt(2))],
@@ -21,7 +34,7 @@ SeedSchemas ==
     [BareStr EXCEPT !.pattern = Some(RxNeg)], [BareStr EXCEPT !.pattern = Some(RxNotLit)],
     [BareStr EXCEPT !.pattern = Some(RxMix)], BareBytes,
     R_TypedLen, BareList, [BareList EXCEPT !.min_len = Some(VInt(1)), !.max_len = Some(VInt(2))],
-    R_Dict, R_Any, AnyOf(<<SInt05, SStrAlpha, BareNone>>), SAlias("T", SInt05), R_Body }
+    R_Dict, R_Any, AnyOf(<<SInt05, SStrAlpha, BareNone>>), SAlias("T", SInt05), R_Body, SOpen33, SPlus }
 
 RECURSIVE RxReadsEnv(_)
 RxReadsEnv(x) ==
@@ -32,11 +45,11 @@ RxReadsEnv(x) ==
     [] x.r = "seq" -> \E i \in DOMAIN x.parts : RxReadsEnv(x.parts[i])
     [] OTHER -> FALSE
 \* the draw sites whose candidates are enumerated from a Python set (hash order)
-ReadsEnv(s) == \E y \in SubSchemas(s) : y.t = "str" /\ IsNone(y.value) /\ IsSome(y.pattern)
+ReadsEnv(el) == \E y \in SubSchemas(SchemaOf(el)) : y.t = "str" /\ IsNone(y.value) /\ IsSome(y.pattern)
                                         /\ RxReadsEnv(Get(y.pattern).rx)
 
 \* unfixed uuid4 / datetime / date draw from the OS and the clock: outside the property
-UsesClock(s) == \E y \in SubSchemas(s) : y.t \in {"uuid4", "datetime", "date"} /\ IsNone(y.value)
+UsesClock(el) == \E y \in SubSchemas(SchemaOf(el)) : y.t \in {"uuid4", "datetime", "date"} /\ IsNone(y.value)
 
 
 =============================================================================
